@@ -120,7 +120,7 @@ Definition ds_list_nonneg (l : list (kind * Z * lookup)) : bool :=
 
 Definition oracle (dsl : list (kind * Z * lookup)) (ign : bool) (c : change)
            (errkind ek eid : Z) (acts : list obs_action) : bool :=
-  if negb (ds_list_nonneg dsl) then true   (* negative versions: outside the property *)
+  if negb (ds_list_nonneg dsl) then false   (* not generated (outside the domain): a case that has one is rejected, see check_change *)
   else
     let ds := ds_of dsl in
     let es := elems_in_order c in
@@ -138,7 +138,10 @@ Definition check_change : P (list Z) :=
   let ds := ds_of dsl in
   let j1 := result_matches ds (annotate_change nft ds ign c) errkind ek eid acts in
   let j2 := oracle dsl ign c errkind ek eid acts in
-  ret (code_if j1 1 ++ code_if j2 2)%list.
+  (* a negative history version is outside the domain and never generated: such a case counts
+     as not parsed (code 0), so a generator regression cannot silently void judgement 2 *)
+  if negb (ds_list_nonneg dsl) then ret [0]
+  else ret (code_if j1 1 ++ code_if j2 2)%list.
 
 Definition check_case (t : toks) : list Z :=
   match t with
